@@ -334,6 +334,20 @@ def containsGo : Val → List String → Bool
   | .leaf _, _ :: _ :: _ => false                               -- `not isinstance(subdict, dict)`
   | .list _, _ :: _ :: _ => false
 
+/-- does the model transcribe `str(subdict)` wherever `contains` may need it: no list whose `repr` is not
+modelled is reached by the walk (`containsGo` answers False there, the real code compares the `repr`) -/
+def containsModelled : Val → List String → Bool
+  | _, [] => true
+  | .list xs, [_] => (reprVal (.list xs)).isSome
+  | .dict l, key :: rest =>
+    match rest with
+    | [] => true
+    | _ :: _ =>
+      match lookup l key with
+      | none => true
+      | some w => containsModelled w rest
+  | _, _ => true
+
 /-- `contains(d, s)` for a dictionary `d`: the empty string names the context itself;
 `len(levels) < 2` gives `s in d`, which is the same test as the general one -/
 def contains (d : Entries) (s : String) : Bool :=
@@ -561,8 +575,40 @@ end
 def toStringE (v : Val) : Except Exc (List Tok) :=
   if serialisable v then .ok (toTokens v) else .error .lenaValueError
 
-/-- JSON spelling of a string without characters that need escaping (used by the driver only) -/
-def jsonStr (s : String) : String := "\"" ++ s ++ "\""
+def hexDigit (n : Nat) : Char :=
+  match n with
+  | 0 => '0' | 1 => '1' | 2 => '2' | 3 => '3' | 4 => '4' | 5 => '5' | 6 => '6' | 7 => '7'
+  | 8 => '8' | 9 => '9' | 10 => 'a' | 11 => 'b' | 12 => 'c' | 13 => 'd' | 14 => 'e' | _ => 'f'
+
+/-- four lower-case hexadecimal digits of a number below 65536 -/
+def hex4 (n : Nat) : List Char :=
+  [hexDigit (n / 4096 % 16), hexDigit (n / 256 % 16), hexDigit (n / 16 % 16), hexDigit (n % 16)]
+
+/-- how `json.dumps` (`ensure_ascii=True`) writes one character inside a string: `"` and `\` with a backslash,
+the short escapes `\n \r \t \b \f`, printable ASCII as it is, everything else as `\uXXXX` (a surrogate pair
+beyond the basic plane) -/
+def escChar (c : Char) : List Char :=
+  if c = '"' then ['\\', '"']
+  else if c = '\\' then ['\\', '\\']
+  else if c = '\n' then ['\\', 'n']
+  else if c = '\r' then ['\\', 'r']
+  else if c = '\t' then ['\\', 't']
+  else if c = '\x08' then ['\\', 'b']
+  else if c = '\x0c' then ['\\', 'f']
+  else if 32 ≤ c.toNat ∧ c.toNat < 127 then [c]
+  else if c.toNat < 65536 then '\\' :: 'u' :: hex4 c.toNat
+  else
+    '\\' :: 'u' :: (hex4 (55296 + (c.toNat - 65536) / 1024) ++
+      '\\' :: 'u' :: hex4 (56320 + (c.toNat - 65536) % 1024))
+
+def escChars : List Char → List Char
+  | [] => []
+  | c :: r => escChar c ++ escChars r
+
+/-- JSON spelling of a string: the escaped characters between double quotes -/
+def jsonStrC (s : List Char) : List Char := '"' :: (escChars s ++ ['"'])
+
+def jsonStr (s : String) : String := String.ofList (jsonStrC s.toList)
 
 /-- spelling of the tokens (used by the driver to compare with the real string; exact for keys and
 strings without characters that JSON escapes) -/
@@ -709,9 +755,12 @@ structure UC where
   recursively : Bool
   deriving Repr
 
-/-- `\s` of `re` and what `str.strip()` removes, for ASCII -/
+/-- `\s` of `re` on `str` patterns and what `str.strip()` removes: the characters with `str.isspace()` —
+ASCII blanks, the separators `\x1c`–`\x1f`, `\x85`, `\xa0` and the Unicode spaces -/
 def isSpace (c : Char) : Bool :=
-  c == ' ' || c == '\t' || c == '\n' || c == '\r' || c == '\x0b' || c == '\x0c'
+  let n := c.toNat
+  (9 ≤ n && n ≤ 13) || (28 ≤ n && n ≤ 32) || n == 133 || n == 160 || n == 5760 ||
+  (8192 ≤ n && n ≤ 8202) || n == 8232 || n == 8233 || n == 8239 || n == 8287 || n == 12288
 
 /-- `re.match(r'{{\s*[^{}\s][^{}]*}}\Z', update)` (/verif/notes/C08_defect_2): two opening braces, characters
 that are not braces with at least one that is not a blank, two closing braces, the end of the string.
@@ -757,7 +806,7 @@ inductive JParse where
 
 def dropSpaces : List Char → List Char
   | [] => []
-  | c :: r => if c = ' ' then dropSpaces r else c :: r
+  | c :: r => if isSpace c then dropSpaces r else c :: r
 
 def trimSpaces (w : List Char) : List Char := (dropSpaces (dropSpaces w).reverse).reverse
 
@@ -922,18 +971,24 @@ def ucCall {δ} (uc : UC) (value : Item δ) : Except Exc (Item δ) :=
 
 /-! ## `DeleteContext` (elements.py) -/
 
-/-- the `key` argument: a dotted string, a list/tuple of strings, or an object of another type -/
+/-- the `key` argument: a dotted string, a list/tuple (its members need not be strings), or an object of
+another type -/
 inductive DelKey where
   | str (s : String)
-  | list (ks : List String)
+  | list (ks : List Val)
   | other
   deriving Repr
 
+def strOfStrVal : Val → Option String
+  | .leaf (.str s) => some s
+  | _ => none
+
 /-- `DeleteContext.__init__`: `self._keyl`; anything but a list, a tuple or a string is rejected by
-`str_to_list` (`LenaTypeError`, /verif/notes/C08_defect_1) -/
+`str_to_list` (`LenaTypeError`, /verif/notes/C08_defect_1); a list/tuple with a member that is not a string
+is rejected with `LenaTypeError` (/verif/notes/C08_defect_3) -/
 def dcInit : DelKey → Except Exc (List String)
   | .str s => strToListE (some s)
-  | .list ks => .ok ks
+  | .list ks => if ks.all isStrVal then .ok (ks.filterMap strOfStrVal) else .error .lenaTypeError
   | .other => strToListE none
 
 /-- deletion below the dictionary reached through `keyl[:-1]` (lines 44-57): every key of the prefix
